@@ -14,8 +14,9 @@ import (
 
 // Monitor 5: the wiring between the pieces the other monitors drive one by one. The real server (connection manager,
 // address manager, peer handler, sync manager) runs against one scripted node on loopback, the only address it knows.
-// The node's first connection goes away at one of four points - before the node has sent its version message, after its
-// version and before its verack, right after the handshake, in the middle of the sync. "Replaces an outbound connection
+// The node's first connection goes away at one of five points - before the node has sent its version message, after its
+// version and before its verack, right after the handshake, in the middle of the sync, or after the node has answered the
+// service's version with two version messages of its own. "Replaces an outbound connection
 // that closes": the service must dial again. The verdict is bounded progress with a witness: a service that holds no
 // connection, knows the address and makes not a single dial attempt in 75 s (retry interval 5 s) has lost the slot.
 func wiringScenario(r *ev.Run, id string, i int) *p2prig.Scenario {
@@ -25,7 +26,10 @@ func wiringScenario(r *ev.Run, id string, i int) *p2prig.Scenario {
 	s.CheckpointHeights = []int32{int32(1 + rng.Intn(s.HonestLen-12))}
 	s.DisableCheckpoints = rng.Intn(3) == 0
 	n0 := p2prig.NodeSpec{Kind: "honest", Cap: []int{0, 7, 12}[rng.Intn(3)]}
-	switch i % 4 {
+	switch i % 5 {
+	case 4:
+		// answers the service's version with two version messages and no verack, and hangs up when the service goes on
+		n0.VersionTwice, n0.DisconnectAtMsg = true, 2
 	case 0:
 		n0.DisconnectAtMsg = 1
 	case 1:
@@ -36,7 +40,7 @@ func wiringScenario(r *ev.Run, id string, i int) *p2prig.Scenario {
 		n0.DisconnectAtMsg = 3 + rng.Intn(4)
 	}
 	// the target is 8 outbound connections: a slot that is lost each time shows once all of them are gone
-	if i%4 != 3 && (i/4)%2 == 0 {
+	if i%5 != 3 && (i/5)%2 == 0 {
 		n0.LoseFirstN = 9 + rng.Intn(4)
 	}
 	s.Nodes = []p2prig.NodeSpec{n0}
@@ -50,7 +54,7 @@ func runWiringCase(r *ev.Run, id string, i int) {
 	c06.Record(r, s, res, crash, func(sig string) bool {
 		return strings.HasPrefix(sig, "closed-outbound-connection-not-replaced|") || strings.HasPrefix(sig, "panic")
 	})
-	stage := []string{"before-its-version", "between-version-and-verack", "right-after-the-handshake", "mid-sync"}[i%4]
+	stage := []string{"before-its-version", "between-version-and-verack", "right-after-the-handshake", "mid-sync", "after-two-version-messages"}[i%5]
 	if res != nil && res.Verdict != "inconclusive" {
 		r.Count("wiring_first_connection_lost_"+stage, 1)
 		if s.Nodes[0].LoseFirstN > 1 {
